@@ -45,6 +45,13 @@ def mutations(rng, approx_len, full):
     for pos, vals in ((9, (0, 2, 3, 4, 5, 9)), (10, (1,)), (11, (0, 2)), (12, (0, 2, 3, 4, 5, 255)), (13, (0, 1, 3)), (14, (1,)), (15, (0, 19, 21))):
         muts += ["set=%d:%d" % (pos, v) for v in vals]
     muts += ["app=00", "app=ff0102"]
+    # degenerate signatures (all zero; S = 0 with R a point of small order), alone and under a key hash that names no trusted key
+    ident = "01" + "00" * 31
+    order2 = "ec" + "ff" * 30 + "7f"
+    for sig in ("00" * 64, ident + "00" * 32, order2 + "00" * 32, "00" * 32 + "ff" * 32):
+        muts.append("endhex=" + sig)
+        for _ in range(3 if full else 2):
+            muts.append("set=%d:%d set=%d:%d endhex=%s" % (5 + rng.below(4), rng.below(256), 1 + rng.below(4), rng.below(256), sig))
     return muts
 
 
@@ -310,3 +317,31 @@ def signed_parts_scripts(rng, thorough):
         ops.append("ideliver-from signer%d 0 rz" % signer)
         n += 1
         yield Script("signed-parts-%d" % n, ops, {"suite": "init"})
+
+
+def cfg_algos_script(rng, name, thorough):
+    """cipher lists as a user writes them (order, aliases, upper / lower case, 'plain' anywhere in the list, nothing configured), through the
+    real configuration path `Crypto::new`; what is advertised must be exactly the configured set, and handshakes between such parties must
+    select as the reference does (speeds are measured by the implementation and observed)"""
+    lists = ["plain", "aes128,plain,aes256", "PLAIN,chacha20", "aes256", "default", "AES_128_GCM,none", "chacha,aes_256,unencrypted,AES128",
+             "aes256,aes128", "bogus", "aes128,rot13", "plain,plain", "chacha20_poly1305", "aes128,aes128"]
+    if thorough:
+        names = ["aes128", "aes256", "chacha20", "plain"]
+        for _ in range(12):
+            l = [rng.choice(names) for _ in range(rng.range(1, 4))]
+            lists.append(",".join(l))
+    ops = ["ikeys 2 %s" % rng.bytes(6).hex()]
+    good = []
+    for i, l in enumerate(lists):
+        ops.append("iparty-cfg P%d key=%d trust=0,1 id=%s algos=%s" % (i, i % 2, rng.bytes(16).hex(), l))
+        if "bogus" not in l and "rot13" not in l:
+            good.append(i)
+    # handshakes between pairs of them, both directions
+    pairs = [(a, b) for a in good for b in good if a < b]
+    rng.shuffle(pairs)
+    for k, (a, b) in enumerate(pairs[: (40 if thorough else 14)]):
+        x, y = ("P%d" % a, "P%d" % b) if rng.chance(1, 2) else ("P%d" % b, "P%d" % a)
+        ops.append("iattempt x%d %s payload=%s" % (k, x, hx(rng.bytes(3))))
+        ops.append("iattempt y%d %s payload=%s" % (k, y, hx(rng.bytes(4))))
+        ops += ["iinit x%d" % k, "ideliver-from x%d 0 y%d" % (k, k), "ideliver-from y%d 0 x%d" % (k, k), "ideliver-from x%d 0 y%d" % (k, k)]
+    return Script(name, ops, {"suite": "init"})
